@@ -314,6 +314,38 @@ def model_rows(items, inputs, name):
     return out[0], out[1]
 
 
+def vector_worker(cfg):
+    """grid='inf' constraints with vector-valued ingredients: refused, or (if accepted) sufficient for every component"""
+    from ..common import setup_rockit_path
+    rockit = setup_rockit_path()
+    import io, contextlib
+    import casadi as ca
+    out = {}
+    try:
+        with contextlib.redirect_stdout(io.StringIO()), contextlib.redirect_stderr(io.StringIO()):
+            ocp = rockit.Ocp(T=1)
+            n = cfg["n"]
+            x = ocp.state(n); u = ocp.control(n)
+            ocp.set_der(x, u - x * x)
+            ocp.add_objective(ocp.integral(ca.sumsqr(u)))
+            if cfg["kind"] == "square":
+                ocp.subject_to(x * x <= 1, grid="inf")
+            elif cfg["kind"] == "bounds":
+                ocp.subject_to(-ca.DM(range(1, n + 1)) <= (x <= ca.DM(range(1, n + 1))), grid="inf")
+            else:
+                ocp.subject_to(ocp.inf_der(x) * ocp.inf_der(x) <= 4, grid="inf")
+            M_ = {"MS": rockit.MultipleShooting, "SS": rockit.SingleShooting}.get(cfg["method"])
+            ocp.method(M_(N=2, M=1, intg="rk") if M_ else rockit.DirectCollocation(N=2, M=1, degree=4))
+            ocp.solver("ipopt", {"ipopt.print_level": 0, "print_time": False})
+            ocp.sample(x, grid="control")
+            out["accepted"] = True
+            out["rows"] = int(ocp._method.opti.g.numel())
+    except Exception as e_:
+        out["accepted"] = False
+        out["error"] = str(e_)[:100]
+    return out
+
+
 def run(tier="quick", seed=0, jobs=16):
     rng = random.Random(seed * 1000003 + 1515)
     n = 100 if tier == "quick" else 1000
@@ -398,7 +430,18 @@ def run(tier="quick", seed=0, jobs=16):
                         "what": [{"what": "a grid='inf' constraint was accepted although no sufficient condition can be produced "
                                           "(%s)" % ("non-polynomial expression: " + c["inf"]["wrap"] if c["inf"].get("wrap")
                                                     else "scheme without a degree-4 step polynomial")}]})
-    return {"evaluations": len(items) + len(rej), "distinct_nontrivial": len(nontriv),
+    vcfg = [{"n": n, "kind": kd, "method": m} for n in (2, 5) for kd in ("square", "bounds", "der") for m in ("MS", "SS", "DC")]
+    with mp.get_context("fork").Pool(min(jobs, len(vcfg))) as pool:
+        rv = pool.map(vector_worker, vcfg, chunksize=1)
+    for cfg, r in zip(vcfg, rv):
+        dist["vector/%s" % cfg["kind"]] = dist.get("vector/%s" % cfg["kind"], 0) + 1
+        if r.get("accepted"):
+            # the spline algebra of add_inf_constraints is scalar: an accepted vector-valued constraint is not a
+            # certificate for all components (n components x 5 or 9 coefficients x 2 steps would be needed)
+            dis.append({"property": "C15", "case": dict(cfg, _vector=True), "points": [], "finding_key": None,
+                        "what": [{"what": "a grid='inf' constraint with vector-valued states was accepted (the scalar spline algebra "
+                                          "constrains the wrong entries)", "nlp_rows": r.get("rows")}]})
+    return {"evaluations": len(items) + len(rej) + len(vcfg), "distinct_nontrivial": len(nontriv),
             "rule": "random ODEs with 1-2 scalar states x a grid='inf' constraint (affine, quadratic, product of states, cubic, random polynomial trees, both sides "
                     "state dependent, inf_der of a state alone or mixed with states; upper or lower bound) with a "
                     "parametric bound x {MS, SS with rk, DC degree 4} x N, M x uniform, geometric and free grids x fixed / free T: rows against the "
@@ -411,6 +454,10 @@ def run(tier="quick", seed=0, jobs=16):
 
 def replay(path):
     d = json.load(open(path))
+    if d.get("case", {}).get("_vector"):
+        r = vector_worker(d["case"])
+        print(json.dumps(r, indent=1))
+        return 1 if r.get("accepted") else 0
     r = worker((d["case"], d["points"]))
     print(json.dumps(r, indent=1, default=str)[:3000])
     return 0
